@@ -48,4 +48,40 @@ func (x *Exec) callAsserts(st *State, fr *Frame, key string, args []Value, names
 	}
 }
 
-var _ = ssa.NaiveForm
+// autoInline: helpers of the repository itself that have no contract are
+// executed in place (their real body) when they are small and loop-free —
+// havocking them would turn every harmless helper call into lost precision.
+func (x *Exec) autoInline(fr *Frame, fn *ssa.Function) bool {
+	if fn.Pkg == nil || len(fn.Blocks) == 0 || isPureKey(funcKey(fn)) {
+		return false
+	}
+	if !strings.HasPrefix(fn.Pkg.Pkg.Path(), "github.com/gauss-project/aurorafs/") {
+		return false
+	}
+	if fr != nil && fr.depth > 5 {
+		return false
+	}
+	if len(loopsOf(fn).headers) > 0 {
+		return false
+	}
+	n := 0
+	for _, b := range fn.Blocks {
+		n += len(b.Instrs)
+		for _, ins := range b.Instrs {
+			switch ins.(type) {
+			case *ssa.Go, *ssa.Select:
+				return false
+			}
+		}
+	}
+	if n > 400 {
+		return false
+	}
+	// no recursion through the inline chain
+	for f := fr; f != nil; f = f.parent {
+		if f.fn == fn {
+			return false
+		}
+	}
+	return true
+}
